@@ -221,7 +221,10 @@ Deliver(c) ==
              IF fr.rest = <<>> THEN Ret(c0, ListV(done))
              ELSE ApplyFromBuiltin(c0, [fr EXCEPT !.done = done, !.rest = Tail(@)], fr.f, <<fr.rest[1]>>)
       [] fr.t = "bapply" -> IF ~ok THEN Raise(c0, v.k, v.v) ELSE Ret(c0, v)
-      [] fr.t = "bswap" -> IF ~ok THEN Raise(c0, v.k, v.v) ELSE Ret([c0 EXCEPT !.st.atoms[fr.atom] = v], v)
+      \* (the machine installs without the version check of Def.SwapLoop: the grammars it is run on have no update
+      \* function that writes the atom being swapped)
+      [] fr.t = "bswap" -> IF ~ok THEN Raise(c0, v.k, v.v)
+                           ELSE Ret([c0 EXCEPT !.st.atoms[fr.atom] = v, !.st.avers[fr.atom] = @ + 1], v)
       [] fr.t = "bupdate" ->
            IF ~ok THEN Raise(c0, v.k, v.v)
            ELSE IF fr.coll.t = "map" THEN Ret(c0, MapV(MapPut(fr.coll.m, fr.key, v)))
